@@ -49,6 +49,7 @@ Inductive cmpop := OGt | OGe | OLt | OLe | OEq | ONe.
    GVar : a local pointer is returned (found by a search loop);  GOther : anything else *)
 Inductive grow :=
 | GIdx (g idx parent cnt arr : string) (hi lo : cmpop) (lo_val sub : Z)
+| GLoop (g parent cnt arr : string)          (* for (i = 0; i < parent->cnt; i++) ... return &parent->arr[i]; *)
 | GSingle (g field : string) (checked : bool)
 | GVar (g v : string)
 | GOther (g what : string).
@@ -295,12 +296,13 @@ Definition getter_ok (pairs : list (string * string)) (g : grow) : bool :=
     (match hi with OGt => true | _ => false end) &&
     (match lo, lo_val with OLe, 0 => true | OLt, 1 => true | _, _ => false end) &&
     (sub =? -1) && pair_mem (cnt, arr) pairs
-  | GSingle _ _ checked => checked
+  | GLoop _ _ cnt arr => pair_mem (cnt, arr) pairs
+  | GSingle _ _ _ => true           (* a single child pointer (possibly NULL, which the callers test): no index arithmetic *)
   | GVar _ _ => true                (* a pointer found by a bounded search loop over the same array: no index arithmetic *)
   | GOther _ _ => false
   end.
 Definition grow_name (g : grow) : string :=
-  match g with GIdx n _ _ _ _ _ _ _ _ => n | GSingle n _ _ => n | GVar n _ => n | GOther n _ => n end.
+  match g with GIdx n _ _ _ _ _ _ _ _ => n | GLoop n _ _ _ => n | GSingle n _ _ => n | GVar n _ => n | GOther n _ => n end.
 Local Close Scope Z_scope.
 
 (* ------------------------------------------------------------------------------------------------ specification side *)
